@@ -31,7 +31,8 @@ UNIX_EPOCH_US = np.datetime64('1970-01-01T00:00:00', 'us')
 def generate(rng, tier):
     prog = wgen.gen_program(rng)
     sink = rng.choice(['simpath', 'simstream', 'bytesio', 'realpath'])
-    case = {'program': prog, 'sink': sink, 'index': rng.random() < 0.3}
+    case = {'program': prog, 'sink': sink, 'index': rng.random() < 0.3,
+            'fname': rng.choice(['out.tdms'] * 4 + ['OUT.TDMS', 'capture', 'out.tdms.part', 'my data.tdms', 'run.1.dat'])}
     if rng.random() < 0.15:
         # a second writer alive at the same time on another file; a seeded schedule alternates their calls
         case['twin'] = wgen.gen_program(rng, max_calls=5)
@@ -278,7 +279,7 @@ def execute(case):
         twin = case.get('twin')
         try:
             if twin is None:
-                tr = wexec.run_program(st, prog, case['sink'], case['index'], after_session=after)
+                tr = wexec.run_program(st, prog, case['sink'], case['index'], name=case.get('fname', 'out.tdms'), after_session=after)
                 traces = [tr]
             else:
                 # two writers as cooperative tasks: the schedule decides whose next write_segment call (or session end) runs
@@ -293,7 +294,7 @@ def execute(case):
                     for v in vs:
                         v.sig['twin'] = True
                     res.violations.extend(vs)
-                tasks = [wexec.steps_program(st, prog, case['sink'], case['index'], tr, after_session=after),
+                tasks = [wexec.steps_program(st, prog, case['sink'], case['index'], tr, name=case.get('fname', 'out.tdms'), after_session=after),
                          wexec.steps_program(st, twin, case['twin_sink'], False, tr2, name='twin.tdms', after_session=after2)]
                 live = [0, 1]
                 sched = list(case['twin_schedule'])
